@@ -33,7 +33,26 @@ def standin_schedule(tier, seed):
     if tier != "quick":
         grid += [dict(n_iter=14, n_burn_in_iter=None, n_burn_in_iter_frac=0.2, power=0.9), dict(n_iter=9, n_burn_in_iter=7, power=0.6)]
     cls = ms.TensorMcmcSaemAlgorithm
-    for (kind, kw, n_ft), conf in itertools.product(kinds, grid):
+    reuse = {}
+    runs = list(itertools.product(kinds, grid))
+    # one algorithm object built by the public factory, run twice on fresh models (settings of the second grid entry)
+    try:
+        from leaspy.algo import AlgorithmSettings, algorithm_factory
+        c0 = dict(grid[1])
+        p0 = c0.pop("power")
+        with quiet(), warnings.catch_warnings():
+            warnings.simplefilter("ignore")
+            reuse.update(algo=algorithm_factory(AlgorithmSettings("mcmc_saem", seed=seed, progress_bar=False, burn_in_step_power=p0, **c0)), conf=c0, power=p0)
+        runs += [(kinds[0], grid[1]), (kinds[0], grid[1])]
+    except Exception as e:
+        violations.append(dict(key=f"an algorithm object cannot be built from accepted settings: {type(e).__name__}: {str(e)[:80]}"))
+    n_plain = len(runs) - 2
+    for run_no, ((kind, kw, n_ft), conf) in enumerate(runs):
+        if run_no < n_plain:
+            reuse_now, reuse["algo_saved"] = None, reuse.get("algo_saved", reuse.get("algo"))
+            reuse["algo"] = None
+        else:
+            reuse["algo"] = reuse.get("algo_saved")
         conf = dict(conf)
         power = conf.pop("power")
         n_iter = conf["n_iter"]
@@ -61,7 +80,16 @@ def standin_schedule(tier, seed):
             m = model_factory(kind, **kw)
             with quiet(), warnings.catch_warnings():
                 warnings.simplefilter("ignore")
-                m.fit(Data.from_dataframe(cohort(seed + 2, n_ind=6, n_ft=n_ft)), "mcmc_saem", seed=seed, progress_bar=False, burn_in_step_power=power, **conf)
+                if reuse.get("algo") is not None and conf == reuse["conf"] and power == reuse["power"]:
+                    # the SAME algorithm object as in an earlier fit with these settings (an algorithm object can be run again:
+                    # the schedule of each run is the documented one)
+                    from leaspy.io.data import Dataset
+                    ds_ = Dataset(Data.from_dataframe(cohort(seed + 2, n_ind=6, n_ft=n_ft)))
+                    m.initialize(ds_)
+                    reuse["algo"].run(m, ds_)
+                    label += " (algorithm object run a second time)"
+                else:
+                    m.fit(Data.from_dataframe(cohort(seed + 2, n_ind=6, n_ft=n_ft)), "mcmc_saem", seed=seed, progress_bar=False, burn_in_step_power=power, **conf)
         except Exception as e:
             violations.append(dict(key=f"fit with accepted schedule settings raises {type(e).__name__}: {str(e)[:80]}", settings=label))
             continue
